@@ -372,6 +372,23 @@ func (k *Walker) Do(action string) {
 		} else {
 			w.Write(k.freshPath(), k.content())
 		}
+	case "edit-mod-samesize":
+		// change the content but not the size (defeats size/mtime shortcuts)
+		var cands []string
+		for _, p := range k.wtFiles() {
+			if len(sn.WT()[p]) > 0 && p != ".goitignore" {
+				cands = append(cands, p)
+			}
+		}
+		if p, ok := k.pick(cands); ok {
+			b := append([]byte{}, sn.WT()[p]...)
+			i := k.R.IntN(len(b))
+			b[i] ^= 0x01
+			if b[i] == '\n' || b[i] == 0 {
+				b[i] = 'x'
+			}
+			w.Write(p, b)
+		}
 	case "edit-same":
 		if p, ok := k.pick(k.wtFiles()); ok {
 			w.Tag = map[string]string{"meta": "same-bytes"}
